@@ -73,7 +73,7 @@ impl Op {
     pub fn keys(name: &str) -> &'static [&'static str] {
         match name {
             "new" | "pop" | "clear" | "dedup" | "shrink" | "into_bump_slice" | "into_boxed" | "drop" => &["v"],
-            "with_cap" | "truncate" | "reserve" | "reserve_exact" | "try_reserve" | "try_reserve_exact" => &["v", "n"],
+            "with_cap" | "truncate" | "reserve" | "reserve_exact" | "try_reserve" | "try_reserve_exact" | "into_iter_nth" => &["v", "n"],
             "push" => &["v", "x"],
             "insert" => &["v", "i", "x"],
             "remove" | "swap_remove" => &["v", "i"],
@@ -415,16 +415,16 @@ pub fn gen_op(r: &mut Rng, prof: Profile, kind: char, view: &GenView) -> Op {
             ("resize", 5), ("extend", 5), ("extend_from_slice", 5), ("append", 4), ("split_off", 4), ("drain", 7),
             ("splice", 5), ("drain_filter", 4), ("retain", 4), ("dedup", 2), ("dedup_by", 3), ("dedup_by_key", 2),
             ("reserve", 3), ("reserve_exact", 2), ("try_reserve", 2), ("try_reserve_exact", 1), ("shrink", 3), ("clone", 3),
-            ("into_iter", 2), ("into_bump_slice", 1), ("into_boxed", 1), ("drop", 2), ("raw", 3), ("nb_str", 2), ("iowrite", 1),
+            ("into_iter", 2), ("into_iter_nth", 1), ("into_bump_slice", 1), ("into_boxed", 1), ("drop", 2), ("raw", 3), ("nb_str", 2), ("iowrite", 1),
         ],
         Profile::Iters => &[
-            ("push", 10), ("extend", 8), ("drain", 16), ("splice", 16), ("drain_filter", 12), ("retain", 6), ("into_iter", 6),
+            ("push", 10), ("extend", 8), ("drain", 16), ("splice", 16), ("drain_filter", 12), ("retain", 6), ("into_iter", 6), ("into_iter_nth", 4),
             ("dedup_by", 5), ("dedup_by_key", 3), ("dedup", 2), ("append", 3), ("split_off", 3), ("clone", 3), ("insert", 3),
             ("raw", 2), ("shrink", 2), ("drop", 1), ("into_boxed", 1), ("into_bump_slice", 1),
         ],
         Profile::Panics => &[
             ("push", 8), ("extend", 8), ("retain", 10), ("drain_filter", 14), ("dedup_by", 8), ("dedup_by_key", 6), ("resize", 10),
-            ("extend_from_slice", 8), ("clone", 8), ("splice", 10), ("truncate", 6), ("clear", 3), ("drop", 4), ("into_iter", 6),
+            ("extend_from_slice", 8), ("clone", 8), ("splice", 10), ("truncate", 6), ("clear", 3), ("drop", 4), ("into_iter", 6), ("into_iter_nth", 3),
             ("drain", 8), ("into_boxed", 2), ("insert", 2), ("remove", 2),
         ],
         Profile::Growth => &[
@@ -436,7 +436,7 @@ pub fn gen_op(r: &mut Rng, prof: Profile, kind: char, view: &GenView) -> Op {
             ("push", 14), ("pop", 5), ("insert", 6), ("remove", 5), ("swap_remove", 4), ("truncate", 4), ("clear", 1), ("resize", 5),
             ("extend", 4), ("extend_from_slice", 3), ("append", 3), ("split_off", 3), ("drain", 6), ("splice", 4), ("drain_filter", 4),
             ("retain", 3), ("dedup_by", 2), ("reserve", 4), ("reserve_exact", 2), ("try_reserve", 3), ("shrink", 2), ("clone", 2),
-            ("into_iter", 3), ("into_bump_slice", 1), ("into_boxed", 1), ("drop", 1), ("raw", 1),
+            ("into_iter", 3), ("into_iter_nth", 3), ("into_bump_slice", 1), ("into_boxed", 1), ("drop", 1), ("raw", 1),
         ],
         Profile::Copy => &[
             ("push", 12), ("extend_copy", 14), ("extend_slices", 12), ("extend_from_slice", 4), ("pop", 3), ("insert", 4), ("remove", 3),
@@ -547,6 +547,7 @@ pub fn gen_op(r: &mut Rng, prof: Profile, kind: char, view: &GenView) -> Op {
                 r.below(24) as usize
             };
         }
+        "into_iter_nth" => op.n = r.below(len as u64 + 2) as usize,
         "into_iter" => {
             op.take = r.below(len as u64 + 2) as usize;
             op.back = r.below(3) as usize;
@@ -560,6 +561,8 @@ pub fn gen_op(r: &mut Rng, prof: Profile, kind: char, view: &GenView) -> Op {
     if inject && r.chance(3, 5) {
         let calls = len as u64 + 2;
         op.panic = match name {
+            // a third of the time the destructor of a removed element panics instead of the callback
+            "retain" | "drain_filter" | "dedup_by" | "dedup_by_key" | "dedup" if r.chance(1, 3) => Some((Pk::Drop, r.below(calls) as u32)),
             "retain" | "drain_filter" | "dedup_by" => Some((Pk::Pred, r.below(calls) as u32)),
             "dedup_by_key" => Some((Pk::Pred, r.below(2 * calls) as u32)),
             "resize" => {
@@ -572,7 +575,7 @@ pub fn gen_op(r: &mut Rng, prof: Profile, kind: char, view: &GenView) -> Op {
             "extend_from_slice" => Some((Pk::Clone, r.below(op.xs.len() as u64 + 1) as u32)),
             "clone" => Some((Pk::Clone, r.below(calls) as u32)),
             "extend" | "splice" => Some((Pk::Iter, r.below(op.xs.len() as u64 + 2) as u32)),
-            "truncate" | "clear" | "drop" | "into_iter" | "drain" | "into_boxed" => Some((Pk::Drop, r.below(calls) as u32)),
+            "truncate" | "clear" | "drop" | "into_iter" | "into_iter_nth" | "drain" | "into_boxed" => Some((Pk::Drop, r.below(calls) as u32)),
             _ => None,
         };
         if name == "drain_filter" {
